@@ -160,6 +160,11 @@ fn forged_kbs(a: &Session, hk: Hk) -> Vec<KbItem> {
     add("nonce_other", base_hdr.clone(), with(&base_pl, "nonce", json!("other")), &h1, alg, "h1", true);
     add("nonce_number", base_hdr.clone(), with(&base_pl, "nonce", json!(5)), &h1, alg, "h1", true);
     add("nonce_array", base_hdr.clone(), with(&base_pl, "nonce", json!([NONCES[0]])), &h1, alg, "h1", true);
+    // shapes that a lenient reading could take for "no nonce" / "empty nonce" (a verifier may be asked for the empty string)
+    for (lab, v) in [("null", Value::Null), ("zero", json!(0)), ("false", json!(false)), ("empty_string", json!("")), ("array_of_empty", json!([""])), ("object", json!({}))] {
+        add(&format!("nonce_{lab}"), base_hdr.clone(), with(&base_pl, "nonce", v.clone()), &h1, alg, "h1", true);
+        add(&format!("aud_{lab}"), base_hdr.clone(), with(&base_pl, "aud", v), &h1, alg, "h1", true);
+    }
     add("nonce_prefix", base_hdr.clone(), with(&base_pl, "nonce", json!(&NONCES[0][..5])), &h1, alg, "h1", true);
     // aud
     add("aud_absent", base_hdr.clone(), without(&base_pl, "aud"), &h1, alg, "h1", true);
@@ -480,6 +485,9 @@ pub fn expectations() -> Vec<(Option<&'static str>, Option<&'static str>)> {
         (Some(AUDS[0]), None),
         (None, Some(NONCES[0])),
         (None, None),
+        (Some(AUDS[0]), Some("")),
+        (Some(""), Some(NONCES[0])),
+        (Some(""), Some("")),
     ]
 }
 
@@ -523,14 +531,16 @@ fn run_world(rep: &Report, hk: Hk, issuer_alg: Alg) {
         }
     }
     rep.merge(l);
-    rep.scope_done(json!({"scope": format!("holder key {} / issuer alg {}: 4 credentials x {} disclosure lists x {} KB-JWT items x 7 expectations x 2 formats", hk.name(), issuer_alg.name(), lists_for(&w.sessions[0]).len(), w.kbs.len()), "compositions": items.len() * 14}));
+    rep.scope_done(json!({"scope": format!("holder key {} / issuer alg {}: 4 credentials x {} disclosure lists x {} KB-JWT items x 10 expectations x 2 formats", hk.name(), issuer_alg.name(), lists_for(&w.sessions[0]).len(), w.kbs.len()), "compositions": items.len() * 20}));
     rep.sample(json!({"credential": "A", "list": "S'_plus_one_appended", "kb": "honest:A:S':https://v.example:n-0S6_WzA2Mj", "expectation": [AUDS[0], NONCES[0]], "fmt": "json", "model": "MustReject (sd_hash covers another disclosure list)"}));
 }
 
 // ---- aud / nonce string alphabet: honest presentations must be accepted for every (aud, nonce) pair
 fn string_alphabet(rep: &Report) {
     let strs = ["[\"https://v.example\"]", "[\"a\",\"b\"]", "{}", "null", "true", "1", "\"a\"", "a,b", "*", "Https://V.example", " a ", "e\u{301}", "https://v.example/caf\u{e9}", "https://v.example/caf%C3%A9",
-        "a", "", "https://v.example", "\u{f1}", "xxxxxxxxxxxxxxxxxxxxxxxxxxxxxxxxxxxxxxxxxxxxxxxxxxxxxxxxxxxxxxxx", "a b", "\"", "~", "a.b", "\u{1F600}"];
+        "a", "", "https://v.example", "\u{f1}", "xxxxxxxxxxxxxxxxxxxxxxxxxxxxxxxxxxxxxxxxxxxxxxxxxxxxxxxxxxxxxxxx", "a b", "\"", "~", "a.b", "\u{1F600}",
+        // ':' without a URI scheme in front, schemes that are not https, characters a URI parser or a JSON borrow would trip over
+        "12:30", ":", "Verifier 7: staging", "urn:x:1", "did:example:123", "mailto:a@b", "\\", "a\\b", "\n", "a\tb", "?", "#f", "%", "%zz", "//", "a=b&c=d"];
     let mut items = vec![];
     for a in strs {
         for n in strs {
@@ -651,7 +661,7 @@ fn string_alphabet(rep: &Report) {
         }
     });
     rep.scope_done(json!({"scope": "aud / nonce cross product: a presentation bound to each of the alphabet strings verified under every other string of the alphabet", "strings": strs.len()}));
-    rep.scope_done(json!({"scope": "aud x nonce string alphabet (19 x 19) x 2 formats x 2 holder key types: honest accepted, off-by-one-character expectation rejected"}));
+    rep.scope_done(json!({"scope": "aud x nonce string alphabet (40 x 40) x 2 formats x 2 holder key types: honest accepted, off-by-one-character expectation rejected"}));
 }
 
 // ---- E2: every single-character edit of an honest KB-JWT
